@@ -5,14 +5,11 @@ From CKC Require Import Model.Card Model.Hands Model.Five Model.HandRank.
 From CKC Require Import Proofs.CardFacts Proofs.SortFacts Proofs.BitFacts Proofs.FiveFacts Proofs.PokerFacts
   Proofs.RankedFacts Proofs.ShapeFacts Proofs.ValidFacts.
 From CKC Require Export Proofs.HandFacts.
+From CKC Require Import Model.Search.
 Open Scope N_scope.
 
 (* ---- THE REFLECTION: on every one of the 7 462 classes, in rank order, the tables give the
         position in the list ranked by the rules of poker ------------------------------------- *)
-Definition eval_matches (chk : bool) (ip : N * (N * shape)) : bool :=
-  let '(i, (_, (rs, fl))) := ip in
-  match eval_abs chk rs fl with Ok v => v =? i + 1 | _ => false end.
-
 Lemma eval_ranked chk : forallb (eval_matches chk) (enum_from 0 ranked) = true.
 Proof. destruct chk; vm_cast_no_check (eq_refl true). Qed.
 
@@ -80,19 +77,6 @@ Proof.
 Qed.
 
 (* ---- every value is produced: an explicit witness hand per class ----------------------------- *)
-Fixpoint suits_for (prev k : N) (rs : list N) : list N :=
-  match rs with
-  | [] => []
-  | r :: rest => if r =? prev then (k + 1) :: suits_for r (k + 1) rest else 0 :: suits_for r 0 rest
-  end.
-Definition witness (h : shape) : list N :=
-  let '(rs, fl) := h in
-  if fl then map (fun r => layout r 0) rs
-  else
-    let ss := suits_for 13 0 rs in
-    let ss' := if all_distinct rs then match ss with _ :: t => 1 :: t | [] => [] end else ss in
-    map (fun '(r, s) => layout r s) (combine rs ss').
-
 Definition witness_ok (chk : bool) (ip : N * (N * shape)) : bool :=
   let '(i, (_, h)) := ip in
   let ws := witness h in
